@@ -26,7 +26,13 @@ struct content {
 
 static struct lp_msg *mk_from(const struct content *c)
 {
+#ifdef EXACT_ALLOC
+	/* exactly the room msg_allocator_alloc() gives a message of this payload size: a comparison that reads
+	 * past the (shorter) payload of the other message runs off the object (C11) */
+	struct lp_msg *m = malloc(c->size > MSG_PAYLOAD_BASE_SIZE ? offsetof(struct lp_msg, extra_pl) + (c->size - MSG_PAYLOAD_BASE_SIZE) : sizeof(struct lp_msg));
+#else
 	struct lp_msg *m = malloc(sizeof(struct lp_msg) + TAIL);
+#endif
 	VERIF_ASSUME(m != NULL);
 	/* everything that is NOT content is arbitrary */
 	m->next = (struct lp_msg *)(uintptr_t)vin_u64();
@@ -36,8 +42,13 @@ static struct lp_msg *mk_from(const struct content *c)
 	m->raw_flags = (vin_u32() & ~(uint32_t)MSG_FLAG_ANTI) | c->anti;
 	m->m_type = c->type;
 	m->pl_size = c->size;
-	for(unsigned i = 0; i < PLMAX; i++) /* bytes past size are arbitrary too */
+	for(unsigned i = 0; i < PLMAX; i++) { /* bytes past size are arbitrary too (as far as the buffer goes) */
+#ifdef EXACT_ALLOC
+		if(i >= c->size && i >= MSG_PAYLOAD_BASE_SIZE)
+			break;
+#endif
 		m->pl[i] = i < c->size ? c->pl[i] : vin_u8();
+	}
 	return m;
 }
 
